@@ -148,6 +148,12 @@ def flattenOps : Nat → List Operator → List Operator
   | fuel + 1, .alias inner :: rest => flattenOps fuel (inner ++ rest)
   | fuel + 1, op :: rest => op :: flattenOps fuel rest
 
+/-- `needs_sort`: the aggregation ends the query or is directly followed by `limit` -/
+def needsSortAfter : List Operator → Bool
+  | [] => true
+  | .inline (.limit _) :: _ => true
+  | _ => false
+
 /-- the loop of `Pipeline::new` over the (alias-free) operator list -/
 def planLoop (inAgg : Bool) (hasErrors : Bool) (pre : List RowOp) (post : List AggStage) :
     List Operator → Compile
@@ -166,14 +172,9 @@ def planLoop (inAgg : Bool) (hasErrors : Bool) (pre : List RowOp) (post : List A
   | .agg m :: rest =>
     match convertMultiAgg m with
     | .ok g =>
-      let needsSort := match rest with
-        | [] => true
-        | .inline (.limit _) :: _ => true
-        | _ => false
-      let (scols, sdir) := implicitSort m
-      if needsSort then
+      if needsSortAfter rest then
         -- `convert_sort(sorter, pipeline)?` : key columns are plain columns, always well-typed
-        planLoop true hasErrors pre (.sort scols sdir :: .group g :: post) rest
+        planLoop true hasErrors pre (.sort (implicitSort m).1 (implicitSort m).2 :: .group g :: post) rest
       else planLoop true hasErrors pre (.group g :: post) rest
     | .typeError _ => planLoop true true pre post rest
     | .panic p => .panic p
